@@ -14,11 +14,12 @@ type ModSet struct {
 	Old   map[string]bool
 	Fresh map[string]bool
 	Sorts map[string]Sort
+	Types map[string]types.Type
 	All   bool
 }
 
 func newModSet() *ModSet {
-	return &ModSet{Old: map[string]bool{}, Fresh: map[string]bool{}, Sorts: map[string]Sort{}}
+	return &ModSet{Old: map[string]bool{}, Fresh: map[string]bool{}, Sorts: map[string]Sort{}, Types: map[string]types.Type{}}
 }
 
 func (m *ModSet) add(o *ModSet, asFresh bool) bool {
@@ -42,13 +43,16 @@ func (m *ModSet) add(o *ModSet, asFresh bool) bool {
 	for c, s := range o.Sorts {
 		m.Sorts[c] = s
 	}
+	for c, t := range o.Types {
+		m.Types[c] = t
+	}
 	return changed
 }
 
 // a scratch VC is used to compute component names/sorts from types
 func (p *Program) scratch() *VC {
 	if p.scratchVC == nil {
-		p.scratchVC = &VC{prog: p, u: newUniverse(p), compSort: map[string]Sort{}}
+		p.scratchVC = &VC{prog: p, u: newUniverse(p), compSort: map[string]Sort{}, compType: map[string]types.Type{}}
 	}
 	return p.scratchVC
 }
@@ -150,6 +154,9 @@ func (p *Program) isUnknownCall(c *ssa.CallCommon) bool {
 func (p *Program) localMods(sv *VC, f *ssa.Function, in ssa.Instruction, ms *ModSet) {
 	note := func(comp string, fresh bool) {
 		ms.Sorts[comp] = sv.compSort[comp]
+		if t, ok := sv.compType[comp]; ok {
+			ms.Types[comp] = t
+		}
 		if fresh {
 			ms.Fresh[comp] = true
 		} else {
@@ -296,6 +303,7 @@ func (p *Program) addrMods(sv *VC, addr ssa.Value, valT types.Type, note func(st
 		et := a.Type().(*types.Pointer).Elem()
 		c := globalComp(a)
 		sv.compDecl(c, sv.u.sortOf(et))
+		sv.compType[c] = et
 		note(c, false)
 	case *ssa.Alloc:
 		et := a.Type().Underlying().(*types.Pointer).Elem()
@@ -405,6 +413,7 @@ func (p *Program) typedModSet(vc *VC, tc *Contract) *ModSet {
 						c, _, _ := p.scratch().fieldCompOf(nt, i)
 						ms.Old[c] = true
 						ms.Sorts[c] = p.scratch().compSort[c]
+						ms.Types[c] = p.scratch().compType[c]
 					}
 				}
 			}
